@@ -182,6 +182,9 @@ class AlgDomain:
 
     def norm_elem(self, v, dt):
         if isinstance(v, sp.Basic):
+            fl = v.atoms(sp.Float)
+            if fl:      # a float constant multiplied into an expression outside the shim: read it as the rational it denotes
+                v = v.xreplace({f: exact(float(f)) for f in fl})
             return v
         if isinstance(v, SymArray):
             raise Unsupported('array stored into a scalar slot')
